@@ -57,6 +57,8 @@ func (o vfC13Op) String() string {
 		return "delrole " + o.ID
 	case "pull":
 		return fmt.Sprintf("pull limits=%v", o.Limits)
+	case "load":
+		return "load"
 	}
 	return "?" + o.Kind
 }
@@ -122,10 +124,29 @@ type vfC13Model struct {
 	MemStart map[string]map[string]uint64
 	// per user and role: the latest sequence at which the user was assigned the role
 	MemLast map[string]map[string]uint64
+	// per user and role: the end of the most recent closed assignment period (0 = none)
+	MemPrevEnd map[string]map[string]uint64
+	// per user: the model sequences at which the user and the roles then assigned were loaded by a
+	// request of that user (every load records pending grant-history entries)
+	Loads map[string][]uint64
 }
 
 func vfC13NewModel() *vfC13Model {
-	return &vfC13Model{Docs: map[string]*vfC13Doc{}, Users: map[string]*vfC13Princ{}, Roles: map[string]*vfC13Princ{}, Gap: map[string]map[string]uint64{}, Periods: map[string]map[string][]vfC13Span{}, MemStart: map[string]map[string]uint64{}, MemLast: map[string]map[string]uint64{}}
+	return &vfC13Model{Docs: map[string]*vfC13Doc{}, Users: map[string]*vfC13Princ{}, Roles: map[string]*vfC13Princ{}, Gap: map[string]map[string]uint64{}, Periods: map[string]map[string][]vfC13Span{}, MemStart: map[string]map[string]uint64{}, MemLast: map[string]map[string]uint64{},
+		MemPrevEnd: map[string]map[string]uint64{}, Loads: map[string][]uint64{}}
+}
+
+// NoteLoad records that a request of the user loaded the user and the roles assigned right now.
+func (m *vfC13Model) NoteLoad(user string) { m.Loads[user] = append(m.Loads[user], m.Seq) }
+
+// LoadedWithin: was the user loaded at a moment from..to (from inclusive, to exclusive; to 0 = open)?
+func (m *vfC13Model) LoadedWithin(user string, from, to uint64) bool {
+	for _, l := range m.Loads[user] {
+		if l >= from && (to == 0 || l < to) {
+			return true
+		}
+	}
+	return false
 }
 
 func vfC13CopySpans(m map[string][]vfC13Span) map[string][]vfC13Span {
@@ -183,6 +204,10 @@ func (m *vfC13Model) Clone() *vfC13Model {
 	c.Gap = vfC13Copy2(m.Gap)
 	c.MemStart = vfC13Copy2(m.MemStart)
 	c.MemLast = vfC13Copy2(m.MemLast)
+	c.MemPrevEnd = vfC13Copy2(m.MemPrevEnd)
+	for u, l := range m.Loads {
+		c.Loads[u] = append([]uint64{}, l...)
+	}
 	for u, p := range m.Periods {
 		c.Periods[u] = vfC13CopySpans(p)
 	}
@@ -225,7 +250,7 @@ func (m *vfC13Model) WouldChange(o vfC13Op) bool {
 	case "delrole":
 		r := m.Roles[o.ID]
 		return r != nil && r.Exists && !r.Deleted
-	case "pull":
+	case "pull", "load":
 		return false
 	}
 	return true
@@ -607,9 +632,13 @@ func (m *vfC13Model) noteGaps() {
 			}
 			m.MemLast[name][r] = m.Seq
 		}
+		if m.MemPrevEnd[name] == nil {
+			m.MemPrevEnd[name] = map[string]uint64{}
+		}
 		for r := range m.MemStart[name] {
 			if _, ok := assigned[r]; !ok {
 				delete(m.MemStart[name], r)
+				m.MemPrevEnd[name][r] = m.Seq
 			}
 		}
 		eff := m.Effective(name)
